@@ -219,7 +219,10 @@ impl System {
         self.load_version().await.with_error_context(|error| {
             format!("{COMPONENT} (error: {error}) - failed to load version")
         })?;
-        self.load_users(system_state.users.into_values().collect())
+        self.load_users(
+            system_state.users.into_values().collect(),
+            system_state.current_user_id,
+        )
             .await
             .with_error_context(|error| {
                 format!("{COMPONENT} (error: {error}) - failed to load users")
